@@ -8,8 +8,9 @@ and its database write (whole file, partial file, mid-publish; simulated in-proc
 child process running the real code), restarts in three modes and with config.save_blobs on or off.
 
 Monitor (independent of the model): at every restart the property's clauses are evaluated on what the
-implementation left on disk (os.listdir / os.path.isfile), in the table (own sqlite3 connection) and in
-completed_blob_hashes.
+implementation left on disk (os.listdir / os.path.isfile), in the table (own sqlite3 connection), in
+completed_blob_hashes and in the DHT announcer's work list (SQLiteStorage.get_blobs_to_announce() under both
+settings of announce_head_and_sd_only): whatever is reported or announced must have its file.
 """
 import asyncio
 import hashlib
@@ -106,6 +107,7 @@ class World:
         self.conf = Config(data_dir=self.root, wallet_dir=self.root, download_dir=self.root,
                            config=os.path.join(self.root, 'settings.yml'))
         self.conf.track_bandwidth = False          # no background bandwidth task (unrelated to the property)
+        self.conf.concurrent_blob_announcers = 100000   # get_blobs_to_announce limits to 10x this: never truncate
         self.storage = None
         self.bm = None
         self.dead = False
@@ -194,10 +196,25 @@ class World:
         finally:
             con.close()
 
-    def observe(self):
+    async def announce_lists(self):
+        """what the announcer would be handed right now, under both settings (a dead process announces nothing)"""
+        if self.storage is None:
+            return [], []
+        saved = self.conf.announce_head_and_sd_only
+        try:
+            self.conf.announce_head_and_sd_only = False
+            everything = sorted(hx(h) for h in await self.storage.get_blobs_to_announce())
+            self.conf.announce_head_and_sd_only = True
+            head = sorted(hx(h) for h in await self.storage.get_blobs_to_announce())
+        finally:
+            self.conf.announce_head_and_sd_only = saved
+        return everything, head
+
+    async def observe(self):
+        everything, head = await self.announce_lists()
         return {'disk': self.listing(), 'db': self.rows(),
                 'completed': sorted(hx(h) for h in self.bm.completed_blob_hashes) if self.bm is not None else [],
-                'alive': not self.dead}
+                'alive': not self.dead, 'announce_all': everything, 'announce_head': head}
 
     # -- operations ------------------------------------------------------------------------------------
     def _begin_download(self, h, length):
@@ -354,6 +371,14 @@ class World:
         elif os.path.lexists(p):
             os.remove(p)
 
+    def ext_mark(self, h):
+        con = sqlite3.connect(self.db_path, timeout=30)
+        try:
+            con.execute('update blob set should_announce=1 where blob_hash=?', (h,))
+            con.commit()
+        finally:
+            con.close()
+
     def ext_db(self, h, st):
         con = sqlite3.connect(self.db_path, timeout=30)
         try:
@@ -408,6 +433,8 @@ def model_ops(case):
             m.update(n=hx(resolve_name(case, o['n'])))
         elif k == 'ext_db':
             m.update(h=hx(resolve_name(case, o['h'])), st=o['st'])
+        elif k == 'ext_mark':
+            m.update(h=hx(resolve_name(case, o['h'])))
         out.append(m)
     return out
 
@@ -453,10 +480,10 @@ async def run_ops(w, case, ops, on_restart, trace):
     for o in ops:
         k = o['op']
         if k == 'restart':
-            before = w.observe()
+            before = await w.observe()
             await w.restart(o.get('mode', 'new'), o.get('save'))
             r = 'done'
-            on_restart(before, w.observe())
+            on_restart(before, await w.observe())
         elif k == 'ext_file':
             n = resolve_name(case, o['n'])
             content = None
@@ -472,6 +499,9 @@ async def run_ops(w, case, ops, on_restart, trace):
             r = 'done'
         elif k == 'ext_db':
             w.ext_db(resolve_name(case, o['h']), o['st'])
+            r = 'done'
+        elif k == 'ext_mark':
+            w.ext_mark(resolve_name(case, o['h']))
             r = 'done'
         elif w.dead:
             r = 'dead'
@@ -497,7 +527,7 @@ async def run_ops(w, case, ops, on_restart, trace):
             r = await w.stream_delete(hs, sd)
         else:
             raise ValueError(k)
-        trace.append({'r': r} if o.get('q') else {'r': r, 's': w.observe()})
+        trace.append({'r': r} if o.get('q') else {'r': r, 's': await w.observe()})
 
 
 async def run_impl(case, loop, on_restart):
@@ -530,7 +560,7 @@ async def run_impl_real_kill(case, loop, on_restart):
             raise RuntimeError('child was expected to die by SIGKILL, got %r: %s' % (p.returncode, p.stdout[-2000:]))
         prefix = json.load(open(out_path))
         w.dead = True
-        after_death = w.observe()
+        after_death = await w.observe()
         rest = []
         await run_ops(w, case, case['ops'][cut + 1:], on_restart, rest)
     finally:
@@ -574,7 +604,8 @@ def canon_model_trace(tr):
             'disk': sorted([n, k, int(sz)] for n, k, sz in s['disk']),
             'db': sorted(s['db']),
             'completed': sorted(s['completed']),
-            'alive': s['alive']}})
+            'alive': s['alive'],
+            'announce_all': sorted(s['announce_all']), 'announce_head': sorted(s['announce_head'])}})
     return out
 
 
@@ -600,6 +631,13 @@ def monitor_restart(before, after, prev_restart_after):
     for h in after['completed']:
         if h not in files and h not in dirs:
             return f'{unhx(h)[:12]}.. is reported as completed but has no file'
+    #    ... "and therefore announces": the announcer's work list, under either setting, only holds hashes with a file
+    for which, lst in (('announce_head_and_sd_only=False', after['announce_all']),
+                       ('announce_head_and_sd_only=True', after['announce_head'])):
+        for h in lst:
+            if h not in files and h not in dirs:
+                return (f'{unhx(h)[:12]}.. (status {rows_a.get(h)!r}) has no file but is handed to the DHT announcer '
+                        f'after the start ({which})')
     # 2. every blob file present is recorded as finished
     for n in blob_files:
         if rows_a.get(n) != 'finished':
@@ -733,6 +771,8 @@ def gen_case(rng, nops, with_dirs=False, inject=True, toggle_save=False):
 
     while len(ops) < nops:
         c = rng.random()
+        if rng.random() < 0.08:
+            ops.append({'op': 'ext_mark', 'h': any_name()})       # should_announce=1, as set_announce / store_stream do
         if c < 0.12:
             burst()
         elif c < 0.20:
@@ -769,6 +809,8 @@ def gen_case(rng, nops, with_dirs=False, inject=True, toggle_save=False):
             ext_op()
         elif c < 0.85 and inject:
             ops.append({'op': 'ext_db', 'h': any_name(), 'st': rng.choice([None, 'pending', 'finished', 'finished'])})
+            if rng.random() < 0.5:
+                ops.append({'op': 'ext_mark', 'h': ops[-1]['h']})
         elif c < 0.97:
             ops.append({'op': 'restart', 'mode': rng.choice(['new', 'stop_new', 'stop_same'])})
             if toggle_save and rng.random() < 0.5:
@@ -1019,7 +1061,8 @@ def main(run):
                 'dead process) / publish (0-4 content blobs through the real create_stream with the chunk size patched small, one '
                 'real 2 MiB-chunk stream) / publish_crash(k files written, j recorded) / delete (1-3 names, with or without rows, '
                 'sometimes an invalid name) / stream_delete / ext_file (junk, true content, size 0) / ext_remove / ext_db (forced '
-                'row) / restart (fresh objects, stop()+fresh, stop()+setup() on the same object; in a quarter of the histories some '
+                'row), ext_mark (should_announce=1 on a row) / restart (fresh objects, stop()+fresh, stop()+setup() on the same '
+                'object; in a quarter of the histories some '
                 'restarts switch config.save_blobs off or on), always ending with two restarts; '
                 'pre-state enumeration: every combination of (absent|file|directory) x (no row|pending|finished) per name; a '
                 '>500-file directory for the batch branch; name strings one edit away from a blob hash. distinct = distinct '
